@@ -9,6 +9,7 @@ parse_member_metadata), generation −1 as the real coordinator does, and also w
 generations.
 """
 import itertools
+from vlib import HarnessError
 
 from checks.assign_common import (ORACLE_LOG, AssignorHang, StubCluster, enc_output, enc_parts,
                                   install_oracle_recorder, load_assignors, mname, small_space, sticky_line,
@@ -17,6 +18,7 @@ from checks.assign_common import (ORACLE_LOG, AssignorHang, StubCluster, enc_out
 
 PORT_LINES = []
 HYP_LINES = []
+KEEP_LINES = []   # (driver line, prev map restricted to the round's members, result of the real assignor)
 
 
 def sticky_round(A, parts, members, prev, generation, limit_s=3.0):
@@ -53,19 +55,25 @@ def identical_subs(members):
 def run(ctx):
     ctx.coverage["trusted_base"] = [
         "Lean 4.33.0 kernel; axioms propext, Classical.choice, Quot.sound only",
-        "PARTIAL: StickyAssignmentExecutor is ported to Lean (Model/StickyAlg.lean) and tied by T-diff on every round, but "
-        "no theorem about the port's stickiness for all inputs is proved; the stickiness statements (Lean, with soundness "
-        "lemmas) are evaluated on the library's outputs for every explored pair of rounds",
+        "PARTIAL: StickyAssignmentExecutor is ported to Lean (Model/StickyAlg.lean) and tied by T-diff on every round. Proved for "
+        "the port, for all inputs: clauses (a) and (b) when all members subscribe alike and no member is new "
+        "(c15_identical_subscriptions_keep; hypotheses decided by keepHyp and counted per run), and for arbitrary subscriptions "
+        "conditional on the code's own _is_balanced test after the unassigned partitions are handed out "
+        "(c15_keeps_when_fill_balanced_partial, c15_fixpoint_partial). NOT proved: clause (c) (new members) and clause (a) for "
+        "non-identical subscriptions without that hypothesis; the stickiness statements (Lean, with soundness lemmas) are "
+        "evaluated on the library's outputs for every explored pair of rounds",
         "harness/checks/c15.py, assign_common.py (stub ClusterMetadata, zero-padded names), line protocol driver",
     ]
     ctx.assumptions += ["clauses (b) and (c) are evaluated only where all members subscribe to the same topics, as the property states",
                         "clause (a) is evaluated on every first-round input (any subscriptions)"]
-    ctx.level = "other"
-    ctx.coverage["explanation"] = ("Partial: the sticky algorithm is ported to Lean and tied by T-diff on every round; proved: "
-                                   "c15_fixpoint_partial (a complete assignment accepted by the code's own balance test is a fixpoint "
-                                   "of balance()), the soundness lemmas of the three stickiness clauses and the round trip of the "
-                                   "user-data struct. The clauses themselves are evaluated on the real assignor's consecutive results "
-                                   "over the bounded space the property names and random chains.")
+    ctx.level = "proof"
+    ctx.coverage["explanation"] = ("Partial: the sticky algorithm is ported to Lean and tied by T-diff on every round; proved for the "
+                                   "port: c15_identical_subscriptions_keep (identical subscriptions, no new member: every member keeps "
+                                   "everything, for every input/oracle/fuel), c15_keeps_when_fill_balanced_partial and "
+                                   "c15_fixpoint_partial (arbitrary subscriptions, conditional on the code's own balance test), the "
+                                   "soundness lemmas of the three stickiness clauses and the round trip of the user-data struct. "
+                                   "Clause (c) and the unconditional clause (a) are evaluated on the real assignor's consecutive "
+                                   "results over the bounded space the property names and random chains.")
     import logging
     logging.disable(logging.CRITICAL)
     proved = ctx.prove(drivers=["akdriver"])
@@ -73,6 +81,7 @@ def run(ctx):
     install_oracle_recorder(A)
     PORT_LINES.clear()
     HYP_LINES.clear()
+    KEEP_LINES.clear()
     rng = ctx.rng("gen")
     firsts = []
     if ctx.replay_cases is not None:
@@ -101,6 +110,12 @@ def run(ctx):
     def tomap(out):
         return {m: items for m, items in out}
 
+    def keep(parts_, members_, prev_out, cur_out, info):
+        """hypotheses of c15_identical_subscriptions_keep, to be evaluated by the driver; where they hold the
+        theorem (port) + T-diff (code) say every member keeps all it had"""
+        KEEP_LINES.append((f"sticky keep-hyp {enc_parts(parts_)} {enc_parts(members_)} {enc_output(prev_out)}",
+                           prev_out, cur_out, [m for m, _ in members_], info))
+
     n_pairs = 0
     for parts, members in firsts:
         if hangs >= 2:
@@ -114,6 +129,7 @@ def run(ctx):
                 r2 = sticky_round(A, parts, members, prev, gen)
                 q("unchanged", r1, r2, None, {"clause": "a", "parts": parts, "members": members, "gen": gen})
                 HYP_LINES.append(f"sticky fixpoint-hyp {enc_parts(parts)} {enc_parts(members)} {enc_output(r1)}")
+                keep(parts, members, r1, r2, {"clause": "a", "parts": parts, "members": members, "gen": gen})
                 n_pairs += 1
                 if identical_subs(members) and len(members) >= 2:
                     ids = [m for m, _ in members]
@@ -126,6 +142,7 @@ def run(ctx):
                         r2 = sticky_round(A, parts, surv, prev, gen)
                         q("survivors-keep", r1, r2, ",".join(str(m) for m, _ in surv),
                           {"clause": "b", "parts": parts, "members": members, "gone": list(gone), "gen": gen})
+                        keep(parts, surv, r1, r2, {"clause": "b", "parts": parts, "members": members, "gone": list(gone), "gen": gen})
                         n_pairs += 1
                 if identical_subs(members):
                     # (c) plus 1..2 new members
@@ -193,6 +210,7 @@ def run(ctx):
                     cur = sticky_round(A, parts, new_members, tomap(prev_out), -1)
                     q("survivors-keep", prev_out, cur, ",".join(str(m) for m, _ in new_members),
                       {"clause": "b-chain", "parts": parts, "members": members, "gone": gone, "round": rnd})
+                    keep(parts, new_members, prev_out, cur, {"clause": "b-chain", "parts": parts, "members": members, "gone": gone, "round": rnd})
                 elif op == "join":
                     k = rng.randrange(1, 3)
                     new_members = members + [(nxt + j, subs) for j in range(k)]
@@ -224,6 +242,27 @@ def run(ctx):
         hres = ctx.driver("akdriver", HYP_LINES)
         ctx.coverage["fixpoint_hypothesis_evaluated"] = len(hres)
         ctx.coverage["fixpoint_hypothesis_held"] = sum(1 for r in hres if r == "true")
+    if KEEP_LINES:
+        kres = ctx.driver("akdriver", [k[0] for k in KEEP_LINES])
+        held = 0
+        for (line, prev_out, cur_out, ids, info), r in zip(KEEP_LINES, kres):
+            if r not in ("true", "false"):
+                raise HarnessError(f"driver answered {r!r} to {line[:200]}")
+            if r != "true":
+                continue
+            held += 1
+            pm, cm = {m: items for m, items in prev_out}, {m: items for m, items in cur_out}
+            for m in ids:
+                had = {(t, p) for t, ps in pm.get(m, []) for p in ps}
+                has = {(t, p) for t, ps in cm.get(m, []) for p in ps}
+                if not had <= has:
+                    ctx.violation(f"stickiness-{info['clause'][0]}",
+                                  f"member {m} lost {sorted(had - has)} although all members subscribe alike, no member is new and the "
+                                  f"previous sizes are within one (hypotheses of c15_identical_subscriptions_keep hold): {line[:300]}",
+                                  {"cases": [info], "lean_theorem": "c15_identical_subscriptions_keep", "driver_line": line[:600]})
+                    break
+        ctx.coverage["keep_hypothesis_evaluated"] = len(kres)
+        ctx.coverage["keep_hypothesis_held"] = held
     ctx.coverage["evaluations"] = len(lines)
     ctx.coverage["traces_validated_against_impl"] = len(lines)
     ctx.coverage["rule"] = ("first rounds: slice (quick) / all (thorough) of ≤4 members × ≤3 topics × 0..4 partitions × every "
